@@ -15,8 +15,9 @@ Property theorems only.  Structure:
   (`parser_cache_leak_witness`) — which is why the repaired decorator keeps it on the instance.
 * `framed_noninterfering` / `frame_noninterference`: the `NonInterfering` hypothesis follows from what the
   effect table states per operation — a read set and a write set (`Framed`) with no cell both read by some
-  operation and written by some operation; `memo_world_noninterfering` shows the memo mechanism satisfies
-  `NonInterfering` with the invariant `CacheSound` (so read-and-written memo cells are admissible).
+  operation and written by some operation; `memo_world_noninterfering` / `registry_world_noninterfering` show the memo and the
+  registry mechanism satisfy `NonInterfering` with the invariants `CacheSound` / `RegSound` (so these
+  read-and-written cells are admissible).
 * obligations over the tables regenerated from the source on every run
   (`effects_covered`, `shared_cells_read_before_write_zero`, `no_shared_cell_escapes`,
   `instance_cells_fresh`, `no_file_write_sites`, `plugins_resolve`, `writers_resolve`,
@@ -189,6 +190,21 @@ theorem registry_listed_resolve (defn : N → Option P) (closure : N → List N)
   rw [(registry_get_independent defn closure reg k' h).1, h (k', v) hmem]
   rfl
 
+/-- **The registry is an admissible read-and-written cell.**  The world whose process-wide state is the plug-in
+registry satisfies `NonInterfering` with no relevant cell and the invariant `RegSound`: by `noninterference`,
+whatever other parsers, writers or datasets loaded before, `get` returns what it returns alone. -/
+theorem registry_world_noninterfering {Loc Path Bytes : Type} (defn : N → Option P) (closure : N → List N) :
+    NonInterfering (regSem (Loc := Loc) (Path := Path) (Bytes := Bytes) defn closure) (fun _ => False)
+      (fun s => RegSound defn (s ())) where
+  files_kept := fun _ _ _ _ => rfl
+  good_step := fun n _ _ s hs => (registry_get_independent defn closure (s ()) n hs).2
+  rel_kept := fun _ _ _ _ _ _ hc => hc.elim
+  reads_sound := by
+    intro n fs l s s' hs hs' _
+    refine ⟨?_, rfl⟩
+    show (regGet defn closure (s ()) n).1 = (regGet defn closure (s' ()) n).1
+    exact registry_get_stable defn closure (s ()) (s' ()) n hs hs'
+
 end registry
 
 /-! ### The function-level list of `parser_cache` -/
@@ -345,6 +361,7 @@ end Midgard.Props.C16
 #print axioms Midgard.Props.C16.registry_get_stable
 #print axioms Midgard.Props.C16.registry_exists_sound
 #print axioms Midgard.Props.C16.registry_listed_resolve
+#print axioms Midgard.Props.C16.registry_world_noninterfering
 #print axioms Midgard.Props.C16.parser_cache_irrelevant_partial
 #print axioms Midgard.Props.C16.parser_cache_leak_witness
 #print axioms Midgard.Props.C16.parser_cache_local
